@@ -5,7 +5,7 @@
 (***************************************************************************)
 EXTENDS TraceBase, Field
 
-VARIABLES tl, tBad, tCnt
+VARIABLES tl, tBad, tCnt, life          \* life: the abstract value of the long-lived object of the lifetime chain (fe.Life)
 
 H(s)      == HexToInt(s)
 Is(x, s)  == IntIsHex(x, W, s)
@@ -14,7 +14,7 @@ RInv      == ModInv(RMont, P)
 ZSwu      == P -- 11                         \* the RFC 9380 non-square Z = -11 (sqrt_ratio's second branch)
 FlagOf(b) == IF b THEN 1 ELSE 0
 
-Classes == {"canon_repr", "sum_window", "diff_borrow", "mont_window", "mont_sqr_window", "decode_ge_p", "decode_lt_p",
+Classes == {"life_step", "life_zero", "life_reject", "life_sqrt_none", "canon_repr", "sum_window", "diff_borrow", "mont_window", "mont_sqr_window", "decode_ge_p", "decode_lt_p",
             "canon_reject", "canon_accept", "wide_len_odd", "wide_ge_p", "wide_panic", "sqrt_residue",
             "sqrt_nonresidue", "sqrt_zero", "ratio_v0", "ratio_square", "ratio_nonsquare", "inv_zero",
             "alias_all", "alias_recv", "pow2k_panic", "csel_nonbool_ctrl", "near_p", "near_zero"}
@@ -117,19 +117,62 @@ Verdict(ev) ==
     [] ev.ev = "mont.To"   -> << Is(FMul(H(ev.a), RMont), ev.out), {} >>
     [] ev.ev = "mont.Nonzero" -> << ev.out = FlagOf(~BigEq(H(ev.a), 0)), {} >>
 
-Init == tl = 1 /\ tBad = 0 /\ tCnt = [k \in Classes \cup {"_any"} |-> 0]
+(* ---- object lifetime (fe.Life, stateful): the expected value of the long-lived object after one more mutation, and what *)
+(* every observer (on the object, a fresh copy and a second long-lived object set from it) must then report              *)
+RECURSIVE LifePow(_, _)
+LifePow(x, k) == IF k = 0 THEN x ELSE LifePow(FMul(x, x), k - 1)
+LifeWant(cur, ev) ==
+  LET a == IF ev.op = "wide" THEN 0 ELSE H(ev.arg) IN
+  CASE ev.op = "reset"    -> a
+    [] ev.op = "zero"     -> 0
+    [] ev.op = "one"      -> 1
+    [] ev.op = "add"      -> FAdd(cur, a)
+    [] ev.op = "sub"      -> FSub(cur, a)
+    [] ev.op = "rsub"     -> FSub(a, cur)
+    [] ev.op = "neg"      -> FNeg(cur)
+    [] ev.op = "mul"      -> FMul(cur, a)
+    [] ev.op = "sq"       -> FMul(cur, cur)
+    [] ev.op = "set"      -> a
+    [] ev.op = "setbytes" -> a %% P
+    [] ev.op = "setcanon" -> IF a \prec P THEN a ELSE cur                    \* a rejected decode leaves the object as it was
+    [] ev.op = "cneg"     -> IF ev.ctrl = 0 THEN cur ELSE FNeg(cur)
+    [] ev.op = "csel"     -> IF ev.ctrl = 0 THEN cur ELSE a
+    [] ev.op = "inv"      -> FInv(cur)
+    [] ev.op = "double"   -> FAdd(cur, cur)
+    [] ev.op = "pow2k"    -> LifePow(cur, ev.ctrl)
+    [] ev.op = "wide"     -> OS2IP(HexToBytes(ev.arg)) %% P
+LifeObsOK(ev, want) ==
+  /\ Is(want, ev.bytes) /\ ev.bytes_again = ev.bytes /\ ev.copy = ev.bytes /\ ev.other = ev.bytes
+  /\ ev.isodd = FlagOf(FIsOdd(want)) /\ ev.copy_isodd = ev.isodd /\ ev.other_isodd = ev.isodd
+  /\ ev.iszero = FlagOf(BigEq(want, 0)) /\ ev.copy_iszero = ev.iszero /\ ev.eqself = 1 /\ ev.eqcopy = 1
+
+Init == tl = 1 /\ tBad = 0 /\ tCnt = [k \in Classes \cup {"_any"} |-> 0] /\ life = IntToHex(0, W)
 
 Step ==
   /\ tl <= NLog
-  /\ LET ev == Log[tl]
-         v  == Verdict(ev)
-     IN  /\ tBad' = IF v[1] THEN tBad ELSE tBad + 1
-         /\ (IF v[1] THEN TRUE ELSE Mismatch(tl, ev))
-         /\ tCnt' = BumpAll(tCnt, v[2])
+  /\ LET ev == Log[tl] IN
+     IF ev.ev = "fe.Life"
+     THEN LET sq   == ev.op = "sqrt"
+              a    == IF ev.op = "wide" THEN 0 ELSE H(ev.arg)
+              got  == H(ev.bytes)
+              want == IF sq THEN (IF FIsSquare(a) THEN got ELSE 0) ELSE LifeWant(H(life), ev)     \* either root is right: adopt the one returned
+              ok   == /\ LifeObsOK(ev, want)
+                      /\ (sq => /\ ev.flag = FlagOf(FIsSquare(a)) /\ (FIsSquare(a) => BigEq(FMul(got, got), a)) /\ (got \prec P))
+          IN
+          /\ tBad' = IF ok THEN tBad ELSE tBad + 1
+          /\ (IF ok THEN TRUE ELSE Mismatch(tl, ev))
+          /\ tCnt' = BumpAll(tCnt, {"life_step"} \cup (IF ev.op = "zero" THEN {"life_zero"} ELSE {}) \cup (IF ev.op = "setcanon" /\ ~(H(ev.arg) \prec P) THEN {"life_reject"} ELSE {})
+                                    \cup (IF sq /\ ~FIsSquare(a) THEN {"life_sqrt_none"} ELSE {}))
+          /\ life' = IntToHex(want, W)
+     ELSE LET v == Verdict(ev) IN
+          /\ tBad' = IF v[1] THEN tBad ELSE tBad + 1
+          /\ (IF v[1] THEN TRUE ELSE Mismatch(tl, ev))
+          /\ tCnt' = BumpAll(tCnt, v[2])
+          /\ life' = life
   /\ tl' = tl + 1
 
-Finish == tl = NLog + 1 /\ Done(tl, tBad, tCnt) /\ tl' = tl + 1 /\ UNCHANGED <<tBad, tCnt>>
+Finish == tl = NLog + 1 /\ Done(tl, tBad, tCnt) /\ tl' = tl + 1 /\ UNCHANGED <<tBad, tCnt, life>>
 
 Next == Step \/ Finish
-Spec == Init /\ [][Next]_<<tl, tBad, tCnt>>
+Spec == Init /\ [][Next]_<<tl, tBad, tCnt, life>>
 =============================================================================
